@@ -144,6 +144,7 @@ CREATE = [
     ('token-sized', lambda bs, cls, dn, n, v, vs: getattr(bs, cls)(f'{dn}{n}={vs}'), "bitstring.{cls}('{dn}{n}={vs}')", False),
     ('dtype-build', lambda bs, cls, dn, n, v, vs: bs.Dtype(dn, n).build(v), "bitstring.Dtype('{dn}', {n}).build({vs})", False),
     ('dtype-sized-build', lambda bs, cls, dn, n, v, vs: bs.Dtype(f'{dn}{n}').build(v), "bitstring.Dtype('{dn}{n}').build({vs})", False),
+    ('pack-list', lambda bs, cls, dn, n, v, vs: bs.pack([f'{dn}:{n}', 'uint:4', 'bin:2'], v, 9, '10')[:n], "bitstring.pack(['{dn}:{n}', 'uint:4', 'bin:2'], {vs}, 9, '10')[:{n}]", False),
     ('pack', lambda bs, cls, dn, n, v, vs: bs.pack(f'{dn}:{n}', v), "bitstring.pack('{dn}:{n}', {vs})", False),
     ('pack-token', lambda bs, cls, dn, n, v, vs: bs.pack(f'{dn}:{n}={vs}'), "bitstring.pack('{dn}:{n}={vs}')", False),
     ('pack-kwlen', lambda bs, cls, dn, n, v, vs: bs.pack(f'{dn}:k', v, k=n), "bitstring.pack('{dn}:k', {vs}, k={n})", False),
@@ -256,7 +257,7 @@ def one_value(bs, acc, sp, n, v, full):
     for di, dn in enumerate(names):
         routes = CREATE if (full or di == 0) else CREATE[:2]
         for ri, (rname, fn, src, mutable_only) in enumerate(routes):
-            if not full and ri not in (0, 1, 4, 8) and (ri + n) % 5:
+            if not full and ri not in (0, 1, 4, 8, 9) and (ri + n) % 5:
                 continue
             if sp.kind in ('hex', 'oct', 'bin') and rname in ('kw-sized', 'setattr-sized', 'token-sized', 'dtype-sized-build', 'fromstring', 'array') and n == 0:
                 continue
@@ -376,6 +377,22 @@ def misc(bs, acc):
                 if got != ('ok', exp):
                     acc.violation('create', 'value' if got[0] == 'ok' else 'exc', dict(dtype='bool', value=repr(v), route=rname, cls=cls, group=f'{rname}|bool'),
                                   '\n'.join(["import bitstring", f"assert ({src}).bin == {exp!r}"]), exp, got)
+            # history: the value assigned / built into a mutable owner, the owner changed in place, the value built again
+            for hname, mkx, hsrc in [('setattr', lambda: (lambda x: (setattr(x, 'bool', v), x)[1])(bs.BitArray()), f"x = bitstring.BitArray(); x.bool = {v!r}"),
+                                     ('setattr-stream', lambda: (lambda x: (setattr(x, 'bool', v), x)[1])(bs.BitStream('0b0')), f"x = bitstring.BitStream('0b0'); x.bool = {v!r}"),
+                                     ('kw-mutable', lambda: bs.BitArray(bool=v), f"x = bitstring.BitArray(bool={v!r})"), ('pack', lambda: bs.pack('bool', v), f"x = bitstring.pack('bool', {v!r})")]:
+                try:
+                    x = mkx()
+                    x.invert()
+                    x.append('0b11')
+                except Exception:  # noqa: BLE001
+                    continue
+                again = [obs(lambda: bs.Bits(bool=v).bin), obs(lambda: bs.Dtype('bool').build(v).bin), obs(lambda: bs.pack('bool', v).bin), obs(lambda: c(f'bool={v}').bin)]
+                acc.step('create', 4, nontrivial=4, ok=4)
+                if any(a != ('ok', exp) for a in again):
+                    acc.violation('create', 'value', dict(dtype='bool', value=repr(v), route=hname, what='value built again after an in-place change of an earlier result', group=f'history|bool'),
+                                  '\n'.join(["import bitstring", hsrc, "x.invert(); x.append('0b11')",
+                                             f"assert [bitstring.Bits(bool={v!r}).bin, bitstring.Dtype('bool').build({v!r}).bin, bitstring.pack('bool', {v!r}).bin] == [{exp!r}] * 3"]), exp, again)
             o = c(bin=exp)
             for rname, th in [('prop', lambda: o.bool), ('unpack', lambda: o.unpack('bool')[0]), ('read', lambda: bs.ConstBitStream(o).read('bool')), ('parse', lambda: bs.Dtype('bool').parse(o))]:
                 got = obs(th)
